@@ -43,6 +43,9 @@ func Spec() *run.Spec {
 			"load-save: one case = one generated valid triangulated OBJ text (0–5 g statements, faces before any g, empty groups, repeated group names, usemtl before g / after g / between faces / twice in a row / after the last face / none / same name again / reused across groups, " +
 			"the corner forms v, v/vt, v//vn, v/vt/vn, one per group or mixed face by face inside a group, pools first / interleaved / one block per group, comments, blank lines, s/o/mtllib statements, tabs, CRLF, 4-component v, 3-component vt, no final newline); " +
 			"non-trivial iff ≥ 2 groups with faces and ≥ 2 usemtl statements. files: one case = a list saved with obj.Save / obj.SaveAll and loaded with obj.Load; non-trivial iff some mesh carries ≥ 2 material ranges or ≥ 2 meshes. " +
+			"fault-sequences: one case = a history of 3–8 operations in one goroutine mixing complete write-read / load-save cases on good writers and readers with obj.WriteMeshes / obj.WriteMesh / obj.WriteMaterials to a writer that fails for good after k bytes " +
+			"(k inside the comment, v, vt/vn, g, usemtl, f lines or the last byte; refusing or partially accepting the failing call) and obj.ReadMesh from a reader that fails at a line boundary; a failing call must report an error, every good operation must pass its complete oracle whatever failed before; " +
+			"non-trivial iff a failure past the first line is followed by a good operation. " +
 			"Distinctness = phase / writer variant / per-mesh (attribute set, index pattern, material kind, size bucket) resp. layout / groups / usemtl count / form sequence / arrangement flags / noise.",
 		Assumptions: []string{
 			"mesh, group and material names are non-empty (except the single unnamed mesh of obj.WriteMesh / obj.Save) and contain no blanks; a nil material is written as the default material, whose OBJ name is \"DefaultDiffuse\"",
@@ -50,6 +53,8 @@ func Spec() *run.Spec {
 			"float32 precision: a value read back must be float32(x); when x lies exactly half way between two float32 values either neighbour is accepted",
 			"materials are identified by name (the reader creates its own material values; only the name is compared)",
 			"a group of a loaded text may mix the corner forms v, v/vt, v//vn, v/vt/vn: a face of such a group is matched by a re-saved face with the same three positions in order, the same normal / texcoord at every corner that had one, and none or a zero normal / texcoord at corners that had none; faces of groups with one form are matched strictly (same form, same data); matching is one-to-one (maximum bipartite matching)",
+			"value class huge-whole (a few % of meshes and texts): whole-valued finite components with magnitude in [2^53, 3e38] (mostly ≥ 2^63, float32-representable), both signs, in positions, normals and texture coordinates; same float32 oracle",
+			"injected writer faults are permanent (every call after the first failing one fails too) and always return a non-nil error; reader faults return a non-EOF error at a line boundary (a failure in the middle of a line hands the parser a cut, i.e. invalid, statement: only counted)",
 			"meshes are non-empty: a mesh with zero triangles has no face statements and cannot be told from an empty group (outside the workload, see DESIGN.md C05)",
 			"load-save judges faces as multisets of corner data (position, texcoord, normal as referenced; see the mixed-form rule); order, group and material agreement of the re-saved faces are measured and reported as counters only",
 			"generated texts use positive indices, triangles only, definitions before use, names without blanks (negative indices and polygons are out of reach); one group in six with several forms available mixes them face by face",
@@ -72,6 +77,12 @@ func Spec() *run.Spec {
 			"attribute_set_pairs":                       12,
 			"faces_matched_with_zero_filled_corner":     500,
 			"file_cases":                                50,
+			"huge_whole_components_written":             2000,
+			"texts_with_huge_whole_numbers":             150,
+			"fault_histories":                           500,
+			"failed_writes_reported":                    500,
+			"failed_reads_reported":                     200,
+			"write_fault_positions":                     6,
 		},
 		Phases: []run.Phase{
 			{Name: "write-read", Cases: func(t string) int {
@@ -92,6 +103,12 @@ func Spec() *run.Spec {
 				}
 				return 800
 			}, Run: files, Batch: 100, CPUBudgetS: 20},
+			{Name: "fault-sequences", Cases: func(t string) int {
+				if t == "thorough" {
+					return 40000
+				}
+				return 1500
+			}, Run: faultSequences, Batch: 100, CPUBudgetS: 20},
 		},
 	}
 }
@@ -348,6 +365,7 @@ func writeRead(c *run.Ctx) run.Result {
 		res.SetAdd("material_kinds", d.MatKind)
 		res.SetAdd("value_classes", d.Class)
 		res.Count("zero_length_ranges_written", int64(d.ZeroLen))
+		res.Count("huge_whole_components_written", int64(d.Huge))
 		if d.NilMat {
 			res.Count("meshes_with_nil_material", 1)
 		}
@@ -458,6 +476,9 @@ func loadSave(c *run.Ctx) run.Result {
 	}
 	for _, n := range d.Noise {
 		res.SetAdd("text_noise", n)
+		if n == "huge-whole" {
+			res.Count("texts_with_huge_whole_numbers", 1)
+		}
 	}
 	wit := map[string]any{"text": clip(text, 2500)}
 	input := "valid triangulated OBJ text"
